@@ -85,7 +85,7 @@ type c19Presented struct {
 func runC19(cfg runCfg) error {
 	r := mrand.New(mrand.NewSource(cfg.seed))
 	sum := &summary{Property: "C19", Seed: cfg.seed, Features: map[string]int{}, CaseInputs: map[string]interface{}{},
-		Rule: "random role table (0-3 roles incl. optional public_role, 4 distinct permission sets) and key set (1-2 of 3 RSA keys) x one presented credential: none, a valid RS256/RS384/RS512 token, or a token with ONE defect (tampered signature, signed by another configured key, by an unconfigured key, unknown kid, missing kid, alg none, HS256 keyed with the public PEM, PS256, expired, not yet valid, the previous request's valid token presented again on the same plugin instance two hours later (after its exp), two segments, garbage, Basic auth, empty bearer, unknown role, empty role), via Authorization header or the token cookie (and a bad header with a valid cookie); observed: HTTP status, downstream request count, the permission set in force (probe query), claim headers on every downstream call; non-trivial = a token was presented"}
+		Rule: "random role table (0-3 roles incl. optional public_role, 4 distinct permission sets) and key set (1-2 of 3 RSA keys) x one presented credential: none, a valid RS256/RS384/RS512 token, or a token with ONE defect (tampered signature, signed by another configured key, by an unconfigured key, unknown kid, missing kid, alg none, HS256 keyed with the public PEM, PS256, expired, not yet valid, the previous request's valid token presented again on the same plugin instance two hours later (after its exp), two segments, garbage, Basic auth, empty bearer, unknown role, empty role), via Authorization header or the token cookie; and reconfigurations of one plugin instance that drop a key while a key provider is unreachable, after which a token signed with the dropped key must be refused (and a bad header with a valid cookie); observed: HTTP status, downstream request count, the permission set in force (probe query), claim headers on every downstream call; non-trivial = a token was presented"}
 	w := &caseWriter{dir: cfg.out, shard: 80, check: "check_jwt_case", imports: "From V Require Import Base.Util Model.Jwt Corr.JwtCheck."}
 	keys := map[string]*jwtKey{}
 	for _, kid := range []string{"k1", "k2", "k3"} {
@@ -375,6 +375,47 @@ func runC19(cfg runCfg) error {
 		if len(sum.Samples) < 4 {
 			sum.Samples = append(sum.Samples, in)
 		}
+	}
+	// ---- a reconfiguration that drops a key while a key provider cannot be reached: whatever Configure then returns, a
+	// token signed with the dropped key is refused afterwards (judged by the Go oracle only)
+	for j := 0; j < 1+cfg.n/20; j++ {
+		name := fmt.Sprintf("c19-%d-r%d", cfg.seed, j)
+		rolesJSON := map[string]json.RawMessage{"admin": json.RawMessage(c19Perms["all"]), "user": json.RawMessage(c19Perms["movies"])}
+		both, _ := json.Marshal(map[string]interface{}{"public-keys": map[string]string{"k1": keys["k1"].pem, "k2": keys["k2"].pem}, "roles": rolesJSON})
+		// port 1 on the loopback interface: refused at once, nothing leaves the machine
+		onlyK1, _ := json.Marshal(map[string]interface{}{"public-keys": map[string]string{"k1": keys["k1"].pem}, "jwks": []string{"http://127.0.0.1:1/jwks.json"}, "roles": rolesJSON})
+		jp := plugins.NewJWTPlugin(nil, nil)
+		if err := jp.Configure(&bramble.Config{}, both); err != nil {
+			return err
+		}
+		world := &simWorld{fed: fed, data: data}
+		gw, err := newGateway(world, gwOpts{maxRequests: 50, extraPlugins: []bramble.Plugin{jp}})
+		if err != nil {
+			return err
+		}
+		mk := func(kid string) string {
+			cl := jwtClaims{Role: []string{"admin", "user"}[j%2]}
+			cl.ExpiresAt = jwt.NewNumericDate(now.Add(time.Hour))
+			tk := jwt.NewWithClaims(jwt.SigningMethodRS256, cl)
+			tk.Header["kid"] = kid
+			s, _ := tk.SignedString(keys[kid].priv)
+			return s
+		}
+		before, err := gw.do(context.Background(), c19Probe, nil, "", map[string]string{"Authorization": "Bearer " + mk("k2")})
+		if err != nil {
+			return err
+		}
+		cerr := jp.Configure(&bramble.Config{}, onlyK1)
+		world.reset()
+		after, err := gw.do(context.Background(), c19Probe, nil, "", map[string]string{"Authorization": "Bearer " + mk("k2")})
+		if err != nil {
+			return err
+		}
+		ok := before.Status == 200 && after.Status == 401 && len(world.requests()) == 0
+		sum.GoOracle = append(sum.GoOracle, oracleResult{Case: name, Component: "prop.c19.dropped_key_refused_after_reconfiguration", OK: ok,
+			Detail: fmt.Sprintf("k2 token before: %d; Configure with k2 dropped and an unreachable key provider returned %v; the same kind of token after: %d with %d downstream request(s)", before.Status, cerr, after.Status, len(world.requests()))})
+		sum.CaseInputs[name] = map[string]interface{}{"defect": "key_dropped_while_provider_unreachable", "history": "Configure(k1,k2); token k2; Configure(k1 + unreachable jwks); token k2"}
+		sum.Features["reconfiguration_with_unreachable_provider"]++
 	}
 	files, err := w.flush()
 	if err != nil {
